@@ -11,6 +11,9 @@ def parseOp? (tok : String) : Option Op :=
   | ["add", k, v] => do pure (.add (← k.toNat?) (← v.toInt?))
   | ["drop", k] => do pure (.drop (← k.toNat?))
   | ["exp", k] => do pure (.expire (← k.toNat?))
+  | ["expa", k] => do pure (.expireVal (← k.toNat?))
+  | ["expi", k] => do pure (.expireId (← k.toNat?))
+  | ["begin"] => some .begin
   | ["flush"] => some .flush
   | ["commit"] => some .commit
   | ["rollback"] => some .rollback
@@ -29,6 +32,7 @@ def showOut (n : Nat) (op : Op) (st : St) : Out → String
     match op with
     | .flush | .commit | .rollback => "d" ++ showDb n st.db
     | _ => "d"
+  | .raised => "x"
   | .val none => "None"
   | .val (some v) => "v" ++ toString v
   | .num k => "#" ++ toString k
@@ -40,15 +44,16 @@ def go (c : Cfg) (gc : Bool) : St → List Op → List String
     let r := if gc then stepGc c st o else step c st o
     showOut c.n o r.1 r.2 :: go c gc r.1 os
 
-/-- `run <n> <eoc> <gc 0|1> <ops>` -/
+def b? (s : String) : Option Bool := if s == "1" then some true else if s == "0" then some false else none
+
+/-- `run <n> <eoc> <autobegin> <gc 0|1> <ops>` -/
 def handle : List String → String
-  | ["run", n, eoc, gc, ops] =>
-    match n.toNat?, (if eoc == "1" then some true else if eoc == "0" then some false else none),
-          (if gc == "1" then some true else if gc == "0" then some false else none), parseOps? ops with
-    | some n, some eoc, some gc, some os =>
-      let c : Cfg := ⟨n, eoc⟩
+  | ["run", n, eoc, ab, gc, ops] =>
+    match n.toNat?, b? eoc, b? ab, b? gc, parseOps? ops with
+    | some n, some eoc, some ab, some gc, some os =>
+      let c : Cfg := ⟨n, eoc, ab⟩
       if os.all (opOk c) then ";".intercalate (go c gc St.init os) else "bad-op"
-    | _, _, _, _ => "bad-op"
+    | _, _, _, _, _ => "bad-op"
   | _ => "bad-op"
 
 end SaVerif.Drv.Weakref
